@@ -353,6 +353,8 @@ def build_scenario(spec: Dict[str, Any]):
             model = torch.nn.Linear(n_feat, H)
         elif m == "mlp":
             model = MultiLayerPerceptron(n_feat, H, n_layers=2, n_units=4)
+        elif m == "mlp_tanh":
+            model = MultiLayerPerceptron(n_feat, H, n_layers=2, n_units=4, activation=torch.nn.Tanh())
         elif m == "naked":
             model = Naked(H)
         elif m == "recurrent":
